@@ -669,3 +669,10 @@ Proof.
     rewrite k_gpo_ref_pos_overlaps_var_eq by exact Hx.
     destruct (ref_pos_overlaps_var g (v_pos v)); reflexivity.
 Qed.
+
+(* ---- array_utils.get_next_index (try / except around array.index) is the definition the SEARCH_F table is read with ---- *)
+Theorem k_get_next_index_eq a i v : k_get_next_index a i v = u8_next_index a i v.
+Proof.
+  unfold k_get_next_index, u8_next_index, u8_index.
+  destruct (u8_next_from 0 a (if i + 1 <? 0 then Z.max 0 (i + 1 + zlen a) else i + 1) v); reflexivity.
+Qed.
